@@ -171,7 +171,14 @@ impl Exp {
                     },
                     BinOp::Mul => match (lhs, rhs) {
                         (Exp::Number(lhs), Exp::Number(rhs)) => Exp::Number(lhs * rhs),
-                        (Exp::Number(0.0), _) | (_, Exp::Number(0.0)) => Exp::Number(0.0),
+                        // a product with zero absorbs its other factor only if that
+                        // factor cannot fail: a division must stay visible so that a
+                        // zero or variable denominator is still diagnosed
+                        (Exp::Number(0.0), other) | (other, Exp::Number(0.0))
+                            if !other.contains_division() =>
+                        {
+                            Exp::Number(0.0)
+                        }
                         (Exp::Number(1.0), rhs) => rhs,
                         (lhs, Exp::Number(1.0)) => lhs,
                         (lhs, rhs) => Exp::BinOp(BinOp::Mul, lhs.to_box(), rhs.to_box()),
@@ -308,6 +315,22 @@ impl Exp {
                 }
             }
             exp => exp.clone(),
+        }
+    }
+
+    /// Whether the expression contains a division anywhere (and so may be undefined).
+    fn contains_division(&self) -> bool {
+        match self {
+            Exp::Number(_) | Exp::Variable(_) => false,
+            Exp::BinOp(BinOp::Div, _, _) => true,
+            Exp::BinOp(_, lhs, rhs)
+            | Exp::Xor(lhs, rhs)
+            | Exp::Implies(lhs, rhs)
+            | Exp::Iff(lhs, rhs) => lhs.contains_division() || rhs.contains_division(),
+            Exp::Abs(exp) | Exp::Not(exp) | Exp::UnOp(_, exp) => exp.contains_division(),
+            Exp::Min(exps) | Exp::Max(exps) | Exp::And(exps) | Exp::Or(exps) => {
+                exps.iter().any(|exp| exp.contains_division())
+            }
         }
     }
 
@@ -479,15 +502,22 @@ fn simplify_logic_nary(exps: &[Exp], is_and: bool) -> Exp {
             (_, exp) => flattened.push(exp),
         }
     }
+    // an absorbing constant may only swallow operands that cannot fail
+    let can_absorb = !flattened.iter().any(|exp| exp.contains_division());
     let mut result: Vec<Exp> = Vec::new();
     for exp in flattened {
         if let Exp::Number(value) = exp {
             let truthy = num_truthy(value);
             if is_and && !truthy {
-                return Exp::Number(0.0);
-            }
-            if !is_and && truthy {
-                return Exp::Number(1.0);
+                if can_absorb {
+                    return Exp::Number(0.0);
+                }
+                result.push(Exp::Number(0.0));
+            } else if !is_and && truthy {
+                if can_absorb {
+                    return Exp::Number(1.0);
+                }
+                result.push(Exp::Number(1.0));
             }
             //identity constants are dropped
         } else {
